@@ -14,6 +14,7 @@ import (
 var (
 	identRegexp          = regexp.MustCompile(`^\[.*\]$`)
 	ErrInvalidIdentifier = errors.New("fatal: invalid identifier")
+	ErrInvalidConfig     = errors.New("fatal: invalid config")
 )
 
 type kv map[string]string
@@ -67,6 +68,9 @@ func (c *Config) load(configPath string, isGlobal bool) error {
 	scanner := bufio.NewScanner(buf)
 	for scanner.Scan() {
 		text := scanner.Text()
+		if strings.TrimSpace(text) == "" {
+			continue
+		}
 		if identRegexp.MatchString(text) {
 			if len(text) <= 2 {
 				return ErrInvalidIdentifier
@@ -78,7 +82,10 @@ func (c *Config) load(configPath string, isGlobal bool) error {
 				c.local[ident] = make(kv)
 			}
 		} else {
-			splitText := strings.Split(strings.Replace(text, "\t", "", -1), "=")
+			splitText := strings.SplitN(strings.Replace(text, "\t", "", -1), "=", 2)
+			if len(splitText) != 2 || ident == "" {
+				return ErrInvalidConfig
+			}
 			key := strings.TrimSpace(splitText[0])
 			value := strings.TrimSpace(splitText[1])
 			if isGlobal {
